@@ -104,11 +104,20 @@ func init() {
 	// identities -> public keys
 	wrapCrypto("github.com/ethereum/go-ethereum/p2p/discv5.HexID", func(m *Machine, g *Goroutine, c *callCtx) (Value, stepStatus) {
 		id := c.args[0].(StrVal)
-		if !id.concrete() || len(id.s) != 128 {
+		// as the real HexID: an optional 0x prefix and either case of the hex digits name the same key
+		canon := strings.ToLower(strings.TrimPrefix(id.s, "0x"))
+		if !id.concrete() || len(canon) != 128 {
 			return TupleVal{m.zero(c.fn.Signature.Results().At(0).Type()), m.freshError("wrong length, want 128 hex chars")}, stNext
 		}
-		m.lastHexID = id.s
+		m.lastHexID = canon
 		return TupleVal{m.zero(c.fn.Signature.Results().At(0).Type()), IfaceVal{}}, stNext
+	})
+	prevIDString := icTable["(github.com/ethereum/go-ethereum/p2p/discv5.NodeID).String"]
+	reg("(github.com/ethereum/go-ethereum/p2p/discv5.NodeID).String", func(m *Machine, g *Goroutine, c *callCtx) (Value, stepStatus) {
+		if m.cryptoOn() && m.lastHexID != "" {
+			return StrVal{s: m.lastHexID}, stNext // the canonical spelling of the id parsed last
+		}
+		return prevIDString(m, g, c)
 	})
 	wrapCrypto("(github.com/ethereum/go-ethereum/p2p/discv5.NodeID).Pubkey", func(m *Machine, g *Goroutine, c *callCtx) (Value, stepStatus) {
 		return TupleVal{m.nativePtr(&cryptoKey{identity: m.lastHexID}, "pubkey"), IfaceVal{}}, stNext
